@@ -206,7 +206,15 @@ class C07:
                 nb = rng.randrange(0, 71) if rng.random() < 0.7 else rng.randrange(0, 600)
                 good = (nb + 7) // 8
                 ln = good if rng.random() < 0.7 else max(0, good + rng.choice([-1, 1, 2]))
-                cases.append(Case("tovec %d %s" % (nb, hexs(rbytes(rng, ln))), "tovec", {"n": nb, "bytes": ln}))
+                data = bytearray(rbytes(rng, ln))
+                # structured payloads: sparse bytes (0x00, 0xff, a single bit) anywhere, the last byte in particular
+                if data and rng.random() < 0.5:
+                    for j in range(len(data)):
+                        if rng.random() < 0.5:
+                            data[j] = rng.choice([0, 0, 0xff, 0x80, 0x01, 1 << rng.randrange(8)])
+                    if rng.random() < 0.6:
+                        data[-1] = rng.choice([0, 0, 0x80, 0xff])
+                cases.append(Case("tovec %d %s" % (nb, hexs(bytes(data))), "tovec", {"n": nb, "bytes": ln}))
             else:
                 parts = self.raw_buffer(rng, big)
                 c = Case("parse %s" % segs(parts), "parse", {"len": sum(len(raw(p)) for p in parts)},
